@@ -54,10 +54,17 @@ func NewLocalImporter(opts LocalImporterOptions) *LocalImporter {
 	if opts.Extensions == nil {
 		opts.Extensions = defaultExtensions
 	}
+	// Fix the root now: a relative directory would otherwise be resolved
+	// again on every import, against whatever the working directory is by
+	// then (a script can change it with os.chdir)
+	sourceDir := opts.SourceDir
+	if abs, err := filepath.Abs(sourceDir); err == nil {
+		sourceDir = abs
+	}
 	return &LocalImporter{
 		globalNames: opts.GlobalNames,
 		codeCache:   map[string]*compiler.Code{},
-		sourceDir:   opts.SourceDir,
+		sourceDir:   sourceDir,
 		extensions:  opts.Extensions,
 	}
 }
